@@ -339,7 +339,8 @@ class NormalizationContext(AbstractHashQueueContext):
         if self.prev_event_data[qid][self._INTERVAL_KEY].count > 0:
             gap_cycles = int(event["args"][ts_a]) - self.prev_event_data[qid][self._INTERVAL_KEY].get_start_cycle()
             gap_time = event["ts"] - self.prev_event_data[qid][self._INTERVAL_KEY].get_start_ts()
-            gap_freq = float(gap_cycles) / gap_time
+            # two slices of one stream class may start at the same host time: no interval to derive a frequency from
+            gap_freq = float(gap_cycles) / gap_time if gap_time != 0.0 else dur_freq
         else:
             gap_freq = dur_freq
         self.prev_event_data[qid][self._INTERVAL_KEY].update(
